@@ -34,3 +34,4 @@ CLAIM = dict(
 )
 
 CLAIM["text"] += " A language-level stream runs straight-line numbat programs over the standard library's list functions (cons, cons_end, tail, take, drop, concat, reverse; solely owned temporaries and let-bound shared lists; NaN elements) on the real interpreter: after every statement every variable must hold what a plain sequence holds, `len` must agree, and `==` between any two variables must be equality of the sequences, whether or not they share storage."
+CLAIM["text"] += " eq_is_sequence_equality: `==` on the representation (lengths, then elements pairwise; the definition the driver executes for the equality matrix) is equality of the two plain sequences for any element equality, reflexive or not, so it does not depend on sharing (numbat repaired: 2bb906d)."
